@@ -25,7 +25,8 @@ TECHNIQUE = ('runtime post-condition monitors (conservation sums; power-law sums
 RULE = ('cases = calls of the real functions. Exhaustive A: every non-constant sequence over {0..4} of length 2..7 (quick) '
         '/ 2..8 (thorough), each as float64, int64 (or list of ints) and shifted by -2, through both series functions. '
         'Exhaustive B: every non-constant sequence over {-2..2} of length 2..5 (quick) / 2..6 (thorough) through the cycle '
-        'and amplitude functions (b in {0.3, 1}, cut_off in {0, 0.1}). Random: noise / smooth / integer / plateau / '
+        'and amplitude functions (float64 and int64; b in {0.3, 0.34, 0.75, 1}, cut_off in {0, 0.05, 0.1}; inverse and '
+        'identical-component relations). Random: noise / smooth / integer / plateau / '
         'offset / zero-start / unit-waveform series, n = 2..5000, amplitude 1e-12..1e6 incl. micro-amplitude records '
         '(unit waveform x 2e-8, 1e-11) with and without large constant offsets, int64 arrays and lists of ints; '
         'b in U(0.05,1] u {0.3,0.34,0.75,1}, cut_off in {0,0.01,0.1} u U(0,0.1), a_ref and n_cyc in 10^U(-1,1.5) '
@@ -44,23 +45,21 @@ ASSUMPTIONS = ['NaN-free real input: float64 / integer arrays, lists and tuples;
                'smallest step is >= 1000 ulps of the shifted values']
 EXHAUSTIVE = {'quick': '{0..4}^n, n=2..7 x {float, int, shifted -2} x {delta, pseudo-cyclic}; {-2..2}^n, n=2..5 x cycle/amplitude',
               'thorough': '{0..4}^n, n=2..8 x {float, int, shifted -2} x {delta, pseudo-cyclic}; {-2..2}^n, n=2..6 x cycle/amplitude'}
-MIN_EVALS = {'quick': {'delta.sum|d|==TV': 150000, 'delta.|sum d|==|end-start|': 150000, 'delta.zero-off-peaks': 150000,
-                       'pseudo.sum==TV/2+offset/2*sign(last move)': 150000, 'delta.shift-invariant': 50000,
-                       'pseudo.shift-invariant': 50000, 'ncyc==reference': 15000, 'ncyc.nondecreasing': 15000,
-                       'ncyc.length': 15000, 'amp==reference': 15000, 'amp.nondecreasing': 15000, 'amp.length': 15000,
-                       'gm==sqrt(amp0*amp1)': 2000, 'combined==reference': 2000, 'inverse(cut_off=0)': 4000,
-                       'inverse(cut_off>0)==a_ref*(S_all/S_kept)^b': 1500, 'amp.scales-linearly': 1200,
-                       'ncyc.joint-scaling-invariant': 1200, 'combined(x,x)==2^b*amp(x)': 1200, 'gm(x,x)==amp(x)': 1200,
-                       'array-b column==scalar-b': 1000, 'int-input==float-input': 30000},
-             'thorough': {'delta.sum|d|==TV': 750000, 'delta.|sum d|==|end-start|': 750000, 'delta.zero-off-peaks': 750000,
-                          'pseudo.sum==TV/2+offset/2*sign(last move)': 750000, 'delta.shift-invariant': 250000,
-                          'pseudo.shift-invariant': 250000, 'ncyc==reference': 150000, 'ncyc.nondecreasing': 150000,
-                          'ncyc.length': 150000, 'amp==reference': 150000, 'amp.nondecreasing': 150000,
-                          'amp.length': 150000, 'gm==sqrt(amp0*amp1)': 40000, 'combined==reference': 40000,
-                          'inverse(cut_off=0)': 40000, 'inverse(cut_off>0)==a_ref*(S_all/S_kept)^b': 20000,
-                          'amp.scales-linearly': 20000, 'ncyc.joint-scaling-invariant': 20000,
-                          'combined(x,x)==2^b*amp(x)': 20000, 'gm(x,x)==amp(x)': 20000, 'array-b column==scalar-b': 15000,
-                          'int-input==float-input': 150000}}
+_MIN_QUICK = {'delta.sum|d|==TV': 150000, 'delta.|sum d|==|end-start|': 150000, 'delta.zero-off-peaks': 150000,
+              'delta.length': 150000, 'pseudo.length': 150000, 'pseudo.zero-off-peaks': 150000,
+              'pseudo.sum==TV/2+offset/2*sign(last move)': 150000, 'delta.shift-invariant': 50000,
+              'pseudo.shift-invariant': 50000, 'int-input==float-input': 100000,
+              'ncyc==reference': 20000, 'ncyc.nondecreasing': 19000, 'ncyc.length': 19000, 'ncyc.accepts-sequences': 1500,
+              'amp==reference': 50000, 'amp.nondecreasing': 43000, 'amp.length': 43000,
+              'gm==sqrt(amp0*amp1)': 10000, 'gm.length': 8000, 'combined==reference': 7500, 'combined.length': 7500,
+              'combined.nondecreasing': 7500, 'inverse(cut_off=0)': 6000,
+              'inverse(cut_off>0)==a_ref*(S_all/S_kept)^b': 4000, 'amp.scales-linearly': 2000,
+              'ncyc.joint-scaling-invariant': 2500, 'combined(x,x)==2^b*amp(x)': 5000, 'gm(x,x)==amp(x)': 5000,
+              'gm(x,y)==sqrt(amp(x)*amp(y))': 1800, 'array-b column==scalar-b': 900}
+# thorough: the enumerations grow 5x, the random part 20x
+_THOROUGH_FACTOR = {'delta.shift-invariant': 5, 'pseudo.shift-invariant': 5, 'int-input==float-input': 5}
+MIN_EVALS = {'quick': _MIN_QUICK,
+             'thorough': {k: v * _THOROUGH_FACTOR.get(k, 6 if k.startswith(('delta', 'pseudo')) else 12) for k, v in _MIN_QUICK.items()}}
 CTX = None
 
 DELTA = 'determine_peaks_only_delta_series'
@@ -483,10 +482,6 @@ def rel_shift(eqsig, ctx, fname, x, c):
     """f(x) == f(x + c)."""
     short = 'delta' if fname == DELTA else 'pseudo'
     xs = _shifted(x, c)
-    r0 = _series_fn(eqsig, ctx, fname, x)
-    r1 = _series_fn(eqsig, ctx, fname, xs)
-    if r0 is None or r1 is None:
-        return
     v0 = np.asarray(x, dtype=float)
     v1 = np.asarray(xs, dtype=float)
     if v0.min() == v0.max():
@@ -496,7 +491,12 @@ def rel_shift(eqsig, ctx, fname, x, c):
     u = float(np.spacing(max(np.max(np.abs(v0)), np.max(np.abs(v1)))))
     ad = np.abs(d0)
     if not exact and float(ad[ad > 0].min()) < 1e3 * u:
+        # the rounding of x + c may merge samples (even flatten the whole series): not the same series any more
         ctx.observe('shift: inexact shift with steps < 1000 ulps (not judged)')
+        return
+    r0 = _series_fn(eqsig, ctx, fname, x)
+    r1 = _series_fn(eqsig, ctx, fname, xs)
+    if r0 is None or r1 is None:
         return
     tv = P.total_variation(v0.tolist())
     allowed = 1e-9 * tv + (0.0 if exact else 8 * u)
@@ -993,7 +993,7 @@ def run_shard(ctx):
                 cont, ckind = tuple(int(v) for v in x), 'tuple-int'
         elif rng.random() < 0.1:
             cont, ckind = x.tolist(), 'list-float'
-        ctx.case(core.digest(x, ckind, c), nontrivial=nontriv, cls='random-%s/%s/%s' % (cls, tag.split('+')[0], ckind),
+        ctx.case(core.digest(x, ckind), nontrivial=nontriv, cls='random-%s/%s/%s' % (cls, tag.split('+')[0], ckind),
                  sample={'fn': 'series + power-law block', 'n': n, 'class': cls, 'amplitude': tag, 'container': ckind, 'head': x[:8]})
         if not nontriv:
             ctx.observe('constant series drawn (not judged)')
